@@ -360,3 +360,118 @@ Proof.
   2:{ intros i Hi. apply rsum_ext. intros j Hj. rewrite (chol_gram n A R0 Hsym H Hnz i j Hi Hj). reflexivity. }
   rewrite quad_gram. apply rsum_nonneg. intros t Ht. apply Rle_0_sqr.
 Qed.
+
+(* (6) the hypotheses of chol_exact are satisfiable: [[4,2],[2,5]] = [[2,0],[1,2]] [[2,1],[0,2]] *)
+Example chol_example : exists R0,
+  cholesky ROps 2 (fun i j => match i, j with 0%nat, 0%nat => 4 | 1%nat, 1%nat => 5 | _, _ => 2 end) = Some R0 /\
+  R0 0%nat 0%nat = 2 /\ R0 1%nat 0%nat = 1 /\ R0 1%nat 1%nat = 2.
+Proof.
+  pose (A := (fun i j : nat => match i, j with 0%nat, 0%nat => 4 | 1%nat, 1%nat => 5 | _, _ => 2 end) : @Mx R).
+  change (exists R0, cholesky ROps 2 A = Some R0 /\ R0 0%nat 0%nat = 2 /\ R0 1%nat 0%nat = 1 /\ R0 1%nat 1%nat = 2).
+  assert (H2 : sqrt 4 = 2). { replace 4 with (2 * 2) by lra. apply sqrt_square. lra. }
+  unfold cholesky. rewrite !chol_cols_S. change (chol_cols ROps 0 A) with (Some A).
+  rewrite (chol_step_R 0 A). unfold chol_row at 1 2. cbn [for_up fst snd o0 ROps].
+  replace (A 0%nat 0%nat - 0) with 4 by (unfold A; lra).
+  replace (Rltb 4 0) with false by (symmetry; apply Rltb_false; lra).
+  rewrite H2. set (B := upd A 0 0 2).
+  rewrite (chol_step_R 1 B). unfold chol_row. cbn [for_up fst snd Nat.add osumn o0 oadd osub omul odiv ROps].
+  assert (B10 : B 1%nat 0%nat = 2) by reflexivity.
+  assert (B00 : B 0%nat 0%nat = 2) by reflexivity.
+  rewrite B10, B00. replace ((2 - 0) / 2) with 1 by lra.
+  set (C := upd B 1 0 1). assert (C11 : C 1%nat 1%nat = 5) by reflexivity.
+  rewrite C11. replace (5 - (0 + 1 * 1)) with 4 by lra.
+  replace (Rltb 4 0) with false by (symmetry; apply Rltb_false; lra).
+  rewrite H2. eexists. split; [reflexivity|]. repeat split; reflexivity.
+Qed.
+
+(* ---------- (5) symmetric positive definite inputs are accepted ---------- *)
+Lemma chol_inv_gram n c (A B : @Mx R) :
+  (forall i j, (i < n)%nat -> (j < n)%nat -> A i j = A j i) -> (c <= n)%nat ->
+  chol_inv A B c ->
+  forall i j, (i < c)%nat -> (j < c)%nat ->
+  A i j = rsum c (fun t => chol_L ROps B i t * chol_L ROps B j t).
+Proof.
+  intros Hsym Hcn (Ha & _ & _).
+  assert (H : forall i j, (i < c)%nat -> (j <= i)%nat ->
+              A i j = rsum c (fun t => chol_L ROps B i t * chol_L ROps B j t)).
+  { intros i j Hi Hj. rewrite <- (Ha i j Hi Hj). rewrite (rsum_trunc c (S j)); [|lia|].
+    - apply rsum_ext. intros t Ht. rewrite !chol_L_low by lia. reflexivity.
+    - intros t Ht. rewrite (chol_L_up B j t) by lia. lra. }
+  intros i j Hi Hj. destruct (le_lt_dec j i).
+  - apply H; assumption.
+  - rewrite Hsym by lia. rewrite (H j i) by lia. apply rsum_ext; intros; lra.
+Qed.
+
+(* the Schur pivot of step c is the value of the quadratic form at (z, 1, 0, ..., 0), L_c^T z = -l *)
+Lemma chol_pivot_pos n c (A B : @Mx R) :
+  (forall i j, (i < n)%nat -> (j < n)%nat -> A i j = A j i) ->
+  (forall x : nat -> R, (exists i, (i < n)%nat /\ x i <> 0) ->
+       0 < rsum n (fun i => rsum n (fun j => x i * A i j * x j))) ->
+  (c < n)%nat -> chol_inv A B c -> (forall k, (k < c)%nat -> B k k <> 0) ->
+  0 < fst (chol_row ROps c B) c c - snd (chol_row ROps c B).
+Proof.
+  intros Hsym Hpd Hcn Hinv Hnz.
+  pose proof (chol_inv_gram n c A B Hsym ltac:(lia) Hinv) as Hgram.
+  destruct Hinv as (Ha & Hb & _).
+  pose proof (chol_row_spec B c Hnz) as [Hrow Hd0]. cbv zeta in Hrow, Hd0.
+  pose proof (chol_row_frame B c) as Hfr.
+  set (B1 := fst (chol_row ROps c B)) in *. set (d0 := snd (chol_row ROps c B)) in *.
+  set (d := B1 c c - d0).
+  set (Y := (fun k _ => - B1 c k) : @Mx R).
+  set (Z := chol_backward ROps c 1 B Y).
+  assert (HZ : forall t, (t < c)%nat -> rsum c (fun i => chol_L ROps B i t * Z i 0%nat) = - B1 c t).
+  { intros t Ht. apply (chol_backward_full c 1 B Y Hnz t 0%nat Ht). lia. }
+  set (x := fun i => if (i <? c)%nat then Z i 0%nat else if (i =? c)%nat then 1 else 0).
+  set (M := (fun i t => if (i <? c)%nat then chol_L ROps B i t else B1 c t) : @Mx R).
+  set (E := fun i j : nat => if ((i =? c)%nat && (j =? c)%nat)%bool then d else 0).
+  assert (HA : forall i j, (i <= c)%nat -> (j <= c)%nat ->
+               A i j = rsum c (fun t => M i t * M j t) + E i j).
+  { assert (Hrowc : forall j, (j < c)%nat -> A c j = rsum c (fun t => B1 c t * chol_L ROps B j t)).
+    { intros j Hj. rewrite <- (Hb c j) by lia. rewrite <- (Hrow j Hj). symmetry.
+      rewrite (rsum_trunc c (S j)); [|lia|].
+      - apply rsum_ext. intros t Ht. rewrite chol_L_low by lia. reflexivity.
+      - intros t Ht. rewrite chol_L_up by lia. lra. }
+    intros i j Hi Hj. unfold M, E.
+    destruct (Nat.ltb_spec i c), (Nat.ltb_spec j c).
+    - replace (i =? c)%nat with false by (symmetry; apply Nat.eqb_neq; lia). cbn [andb].
+      rewrite Rplus_0_r. apply Hgram; assumption.
+    - assert (j = c) by lia. subst j.
+      replace (i =? c)%nat with false by (symmetry; apply Nat.eqb_neq; lia). cbn [andb].
+      rewrite Rplus_0_r. rewrite Hsym by lia. rewrite Hrowc by lia. apply rsum_ext; intros; lra.
+    - assert (i = c) by lia. subst i.
+      replace (j =? c)%nat with false by (symmetry; apply Nat.eqb_neq; lia).
+      rewrite andb_false_r, Rplus_0_r. apply Hrowc. lia.
+    - assert (i = c) by lia. subst i. assert (j = c) by lia. subst j.
+      rewrite Nat.eqb_refl. cbn [andb]. rewrite <- Hd0. unfold d.
+      rewrite <- (Hb c c) by lia. rewrite (Hfr c c) by lia. lra. }
+  assert (Hx0 : forall i, (c < i)%nat -> x i = 0).
+  { intros i Hi. unfold x. destruct (Nat.ltb_spec i c); [lia|]. destruct (Nat.eqb_spec i c); [lia|reflexivity]. }
+  assert (Hxc : x c = 1).
+  { unfold x. rewrite Nat.ltb_irrefl, Nat.eqb_refl. reflexivity. }
+  assert (Hxl : forall i, (i < c)%nat -> x i = Z i 0%nat).
+  { intros i Hi. unfold x. destruct (Nat.ltb_spec i c); [reflexivity|lia]. }
+  assert (Hx : exists i, (i < n)%nat /\ x i <> 0) by (exists c; split; [exact Hcn|rewrite Hxc; lra]).
+  specialize (Hpd x Hx).
+  assert (HQ : rsum n (fun i => rsum n (fun j => x i * A i j * x j)) = d); [|rewrite HQ in Hpd; exact Hpd].
+  rewrite (rsum_trunc n (S c));
+    [|lia|intros i Hi; apply rsum_zero; intros j Hj; rewrite (Hx0 i) by lia; lra].
+  rewrite (rsum_ext (S c) _ (fun i => rsum (S c) (fun j => x i * rsum c (fun t => M i t * M j t) * x j)
+                                    + rsum (S c) (fun j => x i * E i j * x j))).
+  2:{ intros i Hi. rewrite (rsum_trunc n (S c)); [|lia|intros j Hj; rewrite (Hx0 j) by lia; lra].
+      rewrite <- rsum_plus. apply rsum_ext. intros j Hj. rewrite HA by lia. lra. }
+  rewrite rsum_plus, quad_gram.
+  rewrite (rsum_zero c).
+  2:{ intros t Ht.
+      assert (H0 : rsum (S c) (fun i => x i * M i t) = 0).
+      { rewrite rsum_S. rewrite (rsum_ext c _ (fun i => chol_L ROps B i t * Z i 0%nat)).
+        2:{ intros i Hi. rewrite Hxl by lia. unfold M. destruct (Nat.ltb_spec i c); [lra|lia]. }
+        rewrite HZ by lia. rewrite Hxc. unfold M. rewrite Nat.ltb_irrefl. lra. }
+      rewrite H0. lra. }
+  rewrite (rsum_single (S c) c); [|lia|].
+  2:{ intros i Hi Hne. apply rsum_zero. intros j Hj. unfold E.
+      replace (i =? c)%nat with false by (symmetry; apply Nat.eqb_neq; lia). cbn [andb]. lra. }
+  rewrite (rsum_single (S c) c); [|lia|].
+  2:{ intros j Hj Hne. unfold E.
+      replace (j =? c)%nat with false by (symmetry; apply Nat.eqb_neq; lia). rewrite andb_false_r. lra. }
+  unfold E. rewrite Nat.eqb_refl. cbn [andb]. rewrite Hxc. lra.
+Qed.
